@@ -562,3 +562,108 @@ def check_c08(prop, tier, replay, selftest):
     res.extra["drift_count"] = len(res.drift)
     res.assumptions = ["TLC evaluates AdfSyntax correctly", "texts <= 156 characters", "the web service's rejection path is exercised in C16"]
     return res.finish()
+
+
+# ------------------------------------------------------------------ C09
+@register("C09")
+def check_c09(prop, tier, replay, selftest):
+    res = Result(prop, tier)
+    binary = build_harness()
+    out = os.path.join(WORK, "compile_C09.ndjson")
+    os.makedirs(WORK, exist_ok=True)
+    run_harness(binary, ["compile", "--tier", tier, "--out", out])
+    if selftest:
+        def corrupt(rec):
+            if rec.get("st") != "ok" or len(rec["nodes"]) < 6:
+                return None
+            # swap lo / hi of a node that is the root of some statement
+            roots = [h for h in rec["ac"] if h > 1]
+            if not roots:
+                return None
+            h = roots[0]
+            rec["nodes"][h][1], rec["nodes"][h][2] = rec["nodes"][h][2], rec["nodes"][h][1]
+            return rec
+        ok = selftest_corrupt("Trace_Compile", out, corrupt)
+        print("SELFTEST %s: %s" % (prop, "binding demonstrated" if ok else "FAILED"))
+        return 0 if ok else 2
+    res.add_mc(require_mc(tlc_mc("MC_Sem", "MC_Sem_n2.cfg", workers=8, timeout=600)))
+    tr = tlc_trace("Trace_Compile", out, min_per_shard=3)
+    res.add_trace(tr)
+    seen = set()
+    big = 0
+    pregrounded = 0
+    for gl, t in tr["tuples"]:
+        if gl is None:
+            continue
+        rec = json.loads(tr["lines"][gl - 1])
+        if t[0] == "INFO":
+            if len(rec["nodes"]) > 2:
+                seen.add(hashlib.sha1((rec["text"] + rec["path"] + rec["sort"]).encode()).hexdigest())
+            if t[3] >= 20:
+                big += 1
+            if t[4] > 0 and rec["path"] == "hybrid":
+                pregrounded += 1
+        elif t[0] == "MISMATCH":
+            res.violation("%s_%s_%s" % (rec["id"], t[4], t[5]), {"property": prop, "component": "compile", "record": rec, "mismatch": t},
+                          "C09 %s statement %s path %s sort %s: %s" % (t[4], t[5], rec["path"], rec["sort"], rec["text"][:200]))
+    res.evaluations = tr["records"]
+    res.distinct = seen
+    res.extra["large_adfs_20_to_40_statements"] = big
+    res.extra["pregrounded_imports_with_decided_statements"] = pregrounded
+    res.rule = ("records = compiled ADFs (1-5 statements: every assignment; 20-40 statements with supports <= 7 (thorough 9) and formula depth "
+                "<= 7 (thorough 9): every assignment of each statement's support in 3 random contexts) x {native, bridge import, pre-grounded bridge "
+                "import} x {no sort, lexi, alphanum}; distinct = distinct (text, path, sort); non-trivial = table has at least one inner node")
+    res.samples = [{k: json.loads(l)[k] for k in ("id", "n", "path", "sort", "ac", "text")} for l in tr["lines"][30:32]]
+    res.assumptions = ["TLC evaluates AdfSem.Eval / the support-local fixpoint correctly", "beyond supports of 9 only sampled (not generated here)",
+                       "canonicity of large tables is not decided by brute force (shape invariants only); see C06"]
+    return res.finish()
+
+
+# ------------------------------------------------------------------ C10
+@register("C10")
+def check_c10(prop, tier, replay, selftest):
+    res = Result(prop, tier)
+    binary = build_harness()
+    out = os.path.join(WORK, "meta_C10.ndjson")
+    os.makedirs(WORK, exist_ok=True)
+    run_harness(binary, ["meta", "--tier", tier, "--out", out])
+    if selftest:
+        def corrupt(rec):
+            for p in rec["pres"][1:]:
+                if p["st"] == "ok" and len(p["names"]) >= 2 and p["calls"] and p["calls"][0]["r"][0][0] != p["calls"][0]["r"][0][1]:
+                    p["names"][0], p["names"][1] = p["names"][1], p["names"][0]      # values now carry the wrong labels
+                    return rec
+            return None
+        ok = selftest_corrupt("Trace_Meta", out, corrupt)
+        print("SELFTEST %s: %s" % (prop, "binding demonstrated" if ok else "FAILED"))
+        return 0 if ok else 2
+    res.add_mc(require_mc(tlc_mc("MC_Perm", "MC_Perm.cfg", workers=8, timeout=600)))
+    res.add_mc(require_mc(tlc_mc("MC_Perm", "MC_Perm_n3s.cfg", workers=12, timeout=1200)))
+    tr = tlc_trace("Trace_Meta", out, min_per_shard=5)
+    res.add_trace(tr)
+    seen = set()
+    npres = 0
+    for line in tr["lines"]:
+        r = json.loads(line)
+        npres += len(r["pres"])
+        sorts = {p["sort"] for p in r["pres"]}
+        if len(sorts) >= 2:
+            seen.add(r["pres"][0]["text"])
+    for gl, t in tr["tuples"]:
+        if gl is None:
+            continue
+        if t[0] == "MISMATCH":
+            rec = json.loads(tr["lines"][gl - 1])
+            pi = t[5] - 1 if isinstance(t[5], int) and t[5] >= 1 else 0
+            slim = dict(rec, pres=[rec["pres"][0]] + ([rec["pres"][pi]] if pi else []))
+            res.violation("%s_%s_%s" % (rec["id"], json.dumps(t[4])[:40], t[5]), {"property": prop, "component": "meta", "record": slim, "mismatch": t},
+                          "C10 %s presentation %s: %s  vs first: %s" % (json.dumps(t[4]), t[5], rec["pres"][pi]["text"][:160], rec["pres"][0]["text"][:160]))
+    res.evaluations = npres
+    res.distinct = seen
+    res.rule = ("records = base ADFs (2-5 statements with oracle; 20-32 statements without) each shown in 3-4 presentations: injective renamings "
+                "(plain, keyword-like, quoted labels; digits and capitals that order differently bytewise / naturally), shuffled facts, documented "
+                "whitespace, no / lexi / alphanum sorting; grounded on three back-ends and, when <= 7 statements stay undecided, complete / stable / "
+                "two-valued models; evaluations = presentations; distinct = distinct base text; non-trivial = at least two different sort modes")
+    res.samples = [{"id": json.loads(l)["id"], "texts": [p["text"] for p in json.loads(l)["pres"]], "sorts": [p["sort"] for p in json.loads(l)["pres"]]} for l in tr["lines"][3:5]]
+    res.assumptions = ["TLC evaluates AdfSem / LexLeq correctly", "labels are ASCII, so code-point order is byte order", "the CLI's --lx / --an flags are exercised in C15"]
+    return res.finish()
